@@ -29,6 +29,7 @@ type World struct {
 	typeTags map[string]int // closed-world type tags (type string -> tag)
 	tagTypes []types.Type
 	Specs    *SpecDB
+	byValue  map[string]bool
 }
 
 func LoadWorld(repoDir string, patterns []string) (*World, error) {
@@ -53,7 +54,7 @@ func LoadWorld(repoDir string, patterns []string) (*World, error) {
 	if len(errs) > 0 {
 		return nil, fmt.Errorf("load errors: %s", strings.Join(errs, "; "))
 	}
-	prog, _ := ssautil.AllPackages(pkgs, ssa.InstantiateGenerics)
+	prog, _ := ssautil.AllPackages(pkgs, ssa.InstantiateGenerics|ssa.GlobalDebug)
 	prog.Build()
 	w := &World{Prog: prog, Pkgs: pkgs, SSAPkgs: map[string]*ssa.Package{}, RepoDir: repoDir, typeTags: map[string]int{}}
 	w.tagTypes = append(w.tagTypes, nil) // tag 0 = nil interface
@@ -107,6 +108,11 @@ func (w *World) Implementers(iface *types.Interface) []types.Type {
 			}
 			T := tm.Type()
 			if types.IsInterface(T) {
+				continue
+			}
+			if embedsInterface(T, iface) {
+				// a struct that "implements" the interface only by embedding a value of it
+				// (baseRecord embeds Record) is a base for concrete types, never a dynamic type itself
 				continue
 			}
 			if types.Implements(T, iface) {
@@ -212,4 +218,52 @@ func loopKeywordCount(fn *ssa.Function) int {
 		return true
 	})
 	return n
+}
+
+func ssautilAll(w *World) map[*ssa.Function]bool { return ssautil.AllFunctions(w.Prog) }
+
+func embedsInterface(T types.Type, iface *types.Interface) bool {
+	st, ok := T.Underlying().(*types.Struct)
+	if !ok {
+		return false
+	}
+	for i := 0; i < st.NumFields(); i++ {
+		f := st.Field(i)
+		if f.Embedded() {
+			if fi, ok := f.Type().Underlying().(*types.Interface); ok && types.Identical(fi, iface) {
+				return true
+			}
+		}
+	}
+	return false
+}
+
+// usedByValue: is named struct type n used as a by-value field (embedded or
+// not) of some struct in the loaded program? Such structs share their parent's
+// address in the heap model.
+func (w *World) usedByValue(n *types.Named) bool {
+	if w.byValue == nil {
+		w.byValue = map[string]bool{}
+		for _, p := range w.Prog.AllPackages() {
+			for _, m := range p.Members {
+				tm, ok := m.(*ssa.Type)
+				if !ok {
+					continue
+				}
+				st, ok := tm.Type().Underlying().(*types.Struct)
+				if !ok {
+					continue
+				}
+				for i := 0; i < st.NumFields(); i++ {
+					ft := types.Unalias(st.Field(i).Type())
+					if fn, ok := ft.(*types.Named); ok {
+						if _, isS := fn.Underlying().(*types.Struct); isS {
+							w.byValue[qualName(fn)] = true
+						}
+					}
+				}
+			}
+		}
+	}
+	return w.byValue[qualName(n)]
 }
